@@ -267,6 +267,20 @@ class Prop(PropBase):
             if ty in TYPES_HASHABLE:
                 for _ in range(nhash):
                     cs.append(Case("W %s %s" % (ty, gen(rng)), tag="random-%s-hash" % ty))
+        # the stream inserters of every type (kind `p`: tie only - `out << value` equals the model's printer): every
+        # lattice value, every charset x byte glyph, every key value, every mouse action, random values
+        for ty in TYPES_HASHABLE + TYPES_ORDERED:
+            pairs, triples = L[ty]
+            for v in dict.fromkeys(pairs + triples):
+                cs.append(Case("p %s %s" % (ty, v), sweep=ty + "-lattice-printed"))
+            for _ in range(200 if not thorough else 3000):
+                cs.append(Case("p %s %s" % (ty, RANDOM[ty](rng)), tag="random-%s-printed" % ty))
+        for c in range(19):
+            for b0 in range(256):
+                cs.append(Case("p gl %s" % glyph(c, b0, 0x94 if c == UTF8 else 0, 0x81 if c == UTF8 else 0), sweep="glyph-printed-all-sets-and-bytes"))
+        for k in range(256):
+            cs.append(Case("p vk %s" % vkey(k, k % 16, 0, "0 0"), sweep="key-printed-all-values"))
+            cs.append(Case("p me %d %d %d" % (k, k - 3, 7), sweep="mouse-printed-all-actions"))
         # strings that reach the same value by different construction / editing routes (class string's own operations)
         from .C17 import compare_route_cases, string_program
         cs += compare_route_cases(rng, 600 if tier == "quick" else 10000)
